@@ -1,168 +1,700 @@
 package main
 
 import (
+	"fmt"
 	"go/ast"
 	"go/token"
 	"regexp"
+	"sort"
 	"strconv"
+	"strings"
 )
 
-// C10: the numeric limits and offsets of proxy/tcp/tls_clienthello.go and the way SNIProxy.ServeTCP uses the two
-// functions (Peek(9), make([]byte, bufferSize), io.ReadFull, readServerName(data[5:])).
+// C10: the numeric limits and offsets of proxy/tcp/tls_clienthello.go, the ordered checks of the two functions, and
+// the way SNIProxy.ServeTCP uses them (Peek(9), make([]byte, size), io.ReadFull, readServerName(buf[5:]), Lookup).
+//
+// The facts pin MEANING, not spelling:
+//   - the AST is normalised (package constants inlined, switch -> if chain) and integer constant expressions
+//     (`tlsRecordHeaderLen + tlsHandshakeHeaderLen`) are folded here;
+//   - a function is read as an ordered EVENT list through x.WalkInlined, so extracting or inlining an unexported
+//     helper does not change it (an `if !helper(..) { return false }` wrapper is transparent);
+//   - receivers, parameters and locals are printed as `_` (no variable name appears in any fact); the parser
+//     function and the server-name field are found by ROLE (the unexported method readServerName hands its
+//     parameter to; the field it returns), not by name;
+//   - conditions are brought to a normal form: `>`/`>=` flipped to `<`/`<=`; on the (non-negative) lengths and
+//     big-endian fields these functions compare, `x <= 0`, `x < 1` -> `x == 0` and `x > 0`, `x >= 1` -> `x != 0`;
+//     `x%2 == 1`, `x%2 != 0`, `x&1 == 1` -> `x&1 != 0`; `s == ""` -> `len(s) == 0`; `a < b-c` -> `a+c < b`,
+//     `a-c < b` -> `a < b+c`; operands of `+`, `==`, `!=` sorted (literals last); numbers in decimal.
+//
+// Names that remain pinned: clientHelloBufferSize, readServerName (referenced by the hook /repo/proxy/tcp/verif_c10.go:
+// renaming them breaks the harness build anyway), SNIProxy.ServeTCP / Lookup (exported API), and the library calls
+// bufio.NewReader, Peek, make, io.ReadFull.
 func init() {
 	register("C10", func(x *X) error {
+		x.UseNormalizedAST()
 		const dir = "proxy/tcp"
-		num := func(s string) (uint64, bool) {
-			v, err := strconv.ParseUint(s, 0, 64)
-			return v, err == nil
-		}
-		// conds returns the rendered conditions of all if statements and for loops of a function, in source order
-		conds := func(fd *ast.FuncDecl) []string {
-			var out []string
+		c := &c10{x: x, dir: dir}
+
+		// ---- clientHelloBufferSize ----
+		if fd := x.funcDecl(dir, "", "clientHelloBufferSize"); fd != nil {
+			ev := c.events(fd, "")
+			x.defStrList("bufsizeEvents", ev)
+			c.find("clientHelloBufferSize", ev, 0, `^if len\(_\) < (\d+) ->`, "peekMin")
+			i := c.find("clientHelloBufferSize", ev, 0, `^if _\[(\d+)\] != (\d+) ->`, "recTypeOff", "recTypeHandshake")
+			c.find("clientHelloBufferSize", ev, 0, `^if _ == 0 \|\| (\d+) < _ ->`, "maxRecordLen")
+			c.find("clientHelloBufferSize", ev, i+1, `^if _\[(\d+)\] != (\d+) ->`, "hsTypeOff", "hsTypeClientHello")
+			c.find("clientHelloBufferSize", ev, 0, `^if _ == 0 \|\| _ < _\+(\d+) ->`, "hsHdrLen")
+			c.find("clientHelloBufferSize", ev, 0, `^let \(int\(_\[(\d+)\]\)<<(\d+)\)\|int\(_\[(\d+)\]\)$`, "recLenHiOff", "recLenShift", "recLenLoOff")
+			c.find("clientHelloBufferSize", ev, 0, `^let \(\(int\(_\[(\d+)\]\)<<(\d+)\)\|\(int\(_\[(\d+)\]\)<<(\d+)\)\)\|int\(_\[(\d+)\]\)$`,
+				"hsLenOff0", "hsLenShift0", "hsLenOff1", "hsLenShift1", "hsLenOff2")
+			// the successful return: `return <handshake length> + N, nil`
+			var rets []string
 			ast.Inspect(fd.Body, func(n ast.Node) bool {
-				switch s := n.(type) {
-				case *ast.IfStmt:
-					out = append(out, "if "+x.src(s.Cond))
-				case *ast.ForStmt:
-					if s.Cond != nil {
-						out = append(out, "for "+x.src(s.Cond))
-					} else {
-						out = append(out, "for")
-					}
-				case *ast.CaseClause:
-					c := "default"
-					if len(s.List) > 0 {
-						c = ""
-						for i, e := range s.List {
-							if i > 0 {
-								c += ","
-							}
-							c += x.src(e)
-						}
-					}
-					out = append(out, "case "+c)
+				if r, ok := n.(*ast.ReturnStmt); ok && len(r.Results) == 2 && c.expr(r.Results[1]) == "nil" {
+					rets = append(rets, "return "+c.expr(r.Results[0]))
 				}
 				return true
 			})
-			return out
-		}
-		// first regexp match over a list of strings; the sub-matches are numbers
-		find := func(what string, list []string, re string, names ...string) {
-			r := regexp.MustCompile(re)
-			for _, s := range list {
-				if m := r.FindStringSubmatch(s); m != nil {
-					for i, n := range names {
-						v, ok := num(m[i+1])
-						if !ok {
-							x.fail("%s: %q is not a number", what, m[i+1])
-							return
-						}
-						x.defNat(n, v)
-					}
-					return
-				}
-			}
-			x.fail("%s: no statement matches %s", what, re)
-		}
-		// assignments and returns rendered
-		stmts := func(fd *ast.FuncDecl) []string {
-			var out []string
-			ast.Inspect(fd.Body, func(n ast.Node) bool {
-				switch s := n.(type) {
-				case *ast.AssignStmt:
-					out = append(out, x.src(s))
-				case *ast.ReturnStmt:
-					out = append(out, x.src(s))
-				}
-				return true
-			})
-			return out
+			c.find("clientHelloBufferSize", rets, 0, `^return _\+(\d+)$`, "bufsizeAdd")
 		}
 
-		if fd := x.funcDecl(dir, "", "clientHelloBufferSize"); fd != nil {
-			cs := conds(fd)
-			x.defStrList("bufsizeConds", cs)
-			find("clientHelloBufferSize", cs, `^if len\(data\) < (\w+)$`, "peekMin")
-			find("clientHelloBufferSize", cs, `^if data\[(\w+)\] != (\w+)$`, "recTypeOff", "recTypeHandshake")
-			find("clientHelloBufferSize", cs, `^if recordLength <= 0 \|\| recordLength > (\w+)$`, "maxRecordLen")
-			find("clientHelloBufferSize", cs[3:], `^if data\[(\w+)\] != (\w+)$`, "hsTypeOff", "hsTypeClientHello")
-			find("clientHelloBufferSize", cs, `^if handshakeLength <= 0 \|\| handshakeLength > recordLength-(\w+)$`, "hsHdrLen")
-			ss := stmts(fd)
-			find("clientHelloBufferSize", ss, `^recordLength := int\(data\[(\w+)\]\)<<(\w+) \| int\(data\[(\w+)\]\)$`, "recLenHiOff", "recLenShift", "recLenLoOff")
-			find("clientHelloBufferSize", ss, `^handshakeLength := int\(data\[(\w+)\]\)<<(\w+) \| int\(data\[(\w+)\]\)<<(\w+) \| int\(data\[(\w+)\]\)$`,
-				"hsLenOff0", "hsLenShift0", "hsLenOff1", "hsLenShift1", "hsLenOff2")
-			find("clientHelloBufferSize", ss, `^return handshakeLength \+ (\w+), nil$`, "bufsizeAdd")
-		}
-		if e := x.valueSpec(dir, "extensionServerName"); e != nil {
-			if v, ok := num(x.src(e)); ok {
-				x.defNat("extensionServerName", v)
-			} else {
-				x.fail("extensionServerName is not a number: %s", x.src(e))
-			}
-		}
-		if fd := x.funcDecl(dir, "clientHelloMsg", "unmarshal"); fd != nil {
-			cs := conds(fd)
-			x.defStrList("unmarshalConds", cs)
-			ss := stmts(fd)
-			find("unmarshal", cs, `^if len\(data\) < (\w+)$`, "minHelloLen")
-			find("unmarshal", ss, `^m\.random = data\[(\w+):(\w+)\]$`, "randomOff", "randomEnd")
-			find("unmarshal", ss, `^sessionIdLen := int\(data\[(\w+)\]\)$`, "sidLenOff")
-			find("unmarshal", cs, `^if sessionIdLen > (\w+) \|\| len\(data\) < (\w+)\+sessionIdLen$`, "maxSidLen", "sidOff")
-			find("unmarshal", ss, `^data = data\[(\w+)\+sessionIdLen:\]$`, "sidRebindOff")
-			find("unmarshal", ss, `^data = data\[(\w+)\+cipherSuiteLen:\]$`, "cipherRebindOff")
-			find("unmarshal", ss, `^data = data\[(\w+)\+compressionMethodsLen:\]$`, "compressionRebindOff")
-			find("unmarshal", cs, `^if nameType == (\w+)$`, "nameTypeHost")
-			// the only extension looked at is server_name: count the (uncommented) case clauses
-			n := 0
-			for _, c := range cs {
-				if len(c) > 5 && c[:5] == "case " {
-					n++
-				}
-			}
-			x.defNat("unmarshalCaseClauses", uint64(n))
-		}
+		// ---- readServerName: which method parses, which field is returned ----
+		var parser *ast.FuncDecl
+		nameField := ""
 		if fd := x.funcDecl(dir, "", "readServerName"); fd != nil {
-			// it calls m.unmarshal on its argument unchanged
-			cs := x.calls(fd, "m.unmarshal")
-			ok := len(cs) == 1 && len(cs[0].Args) == 1 && len(fd.Type.Params.List) == 1 && len(fd.Type.Params.List[0].Names) == 1 &&
-				x.src(cs[0].Args[0]) == fd.Type.Params.List[0].Names[0].Name
-			x.defBool("readServerNamePassesArgument", ok)
-		}
-		if fd := x.funcDecl(dir, "SNIProxy", "ServeTCP"); fd != nil {
-			// the sequence of the calls that matter, in source order, with their arguments
-			var seq []string
-			var pos []token.Pos
-			want := map[string]bool{"bufio.NewReader": true, "tlsReader.Peek": true, "clientHelloBufferSize": true, "make": true,
-				"io.ReadFull": true, "readServerName": true, "p.Lookup": true}
+			_, params, _ := x.LocalNames(fd)
+			passes := false
 			ast.Inspect(fd.Body, func(n ast.Node) bool {
-				if c, ok := n.(*ast.CallExpr); ok && want[x.src(c.Fun)] {
-					seq = append(seq, x.src(c))
-					pos = append(pos, c.Pos())
+				call, ok := n.(*ast.CallExpr)
+				if !ok || len(call.Args) != 1 || len(params) != 1 {
+					return true
+				}
+				if id, ok := call.Args[0].(*ast.Ident); !ok || id.Name != params[0] {
+					return true
+				}
+				name := ""
+				switch f := call.Fun.(type) {
+				case *ast.Ident:
+					name = f.Name
+				case *ast.SelectorExpr:
+					name = f.Sel.Name
+				}
+				if name != "" && !ast.IsExported(name) {
+					if callee := x.anyFuncDecl(dir, name); callee != nil && parser == nil {
+						parser, passes = callee, true
+					}
 				}
 				return true
 			})
-			if len(seq) > 7 {
-				seq = seq[:7] // the errc channel's make(...) and later calls are not part of the hello handling
-			}
-			x.defStrList("serveTCPCalls", seq)
-			for _, c := range x.calls(fd, "tlsReader.Peek") {
-				if len(c.Args) == 1 {
-					if v, ok := num(x.src(c.Args[0])); ok {
-						x.defNat("peekArg", v)
+			x.defBool("readServerNamePassesArgument", passes)
+			// the last return statement's first result is `<msg>.<field>`
+			ast.Inspect(fd.Body, func(n ast.Node) bool {
+				if r, ok := n.(*ast.ReturnStmt); ok && len(r.Results) == 2 {
+					if se, ok := r.Results[0].(*ast.SelectorExpr); ok && c.expr(r.Results[1]) == "true" {
+						nameField = se.Sel.Name
 					}
 				}
+				return true
+			})
+			if parser == nil {
+				x.fail("readServerName: no unexported same-package function receives the parameter unchanged")
 			}
-			for _, c := range x.calls(fd, "readServerName") {
-				if len(c.Args) == 1 {
-					if se, ok := c.Args[0].(*ast.SliceExpr); ok && se.High == nil && se.Low != nil {
-						if v, ok := num(x.src(se.Low)); ok {
-							x.defNat("recHdrSkip", v)
-							x.defStr("readServerNameArgBase", x.src(se.X))
-						}
-					}
+			if nameField == "" {
+				x.fail("readServerName: no `return <msg>.<field>, true`")
+			}
+		}
+
+		// ---- the parser (clientHelloMsg.unmarshal, whatever it is called) ----
+		if parser != nil && nameField != "" {
+			ev := c.events(parser, nameField)
+			x.defStrList("unmarshalEvents", ev)
+			c.find("unmarshal", ev, 0, `^if len\(_\) < (\d+) -> return false$`, "minHelloLen")
+			c.find("unmarshal", ev, 0, `^slice _\[(\d+):(\d+)\]$`, "randomOff", "randomEnd")
+			c.find("unmarshal", ev, 0, `^let int\(_\[(\d+)\]\)$`, "sidLenOff")
+			c.find("unmarshal", ev, 0, `^if (\d+) < _ \|\| len\(_\) < _\+(\d+) -> return false$`, "maxSidLen", "sidOff")
+			i := c.find("unmarshal", ev, 0, `^advance _\[_\+(\d+):\]$`, "sidRebindOff")
+			i = c.find("unmarshal", ev, i+1, `^advance _\[_\+(\d+):\]$`, "cipherRebindOff")
+			c.find("unmarshal", ev, i+1, `^advance _\[_\+(\d+):\]$`, "compressionRebindOff")
+			// the guards around the store of the server name: outermost = extension type, innermost = name type
+			var guards []string
+			for _, e := range ev {
+				if strings.HasPrefix(e, "if ") && strings.Contains(e, "[name]") {
+					guards = append(guards, e)
 				}
 			}
+			x.defStrList("nameStoreGuards", guards)
+			if len(guards) >= 2 {
+				c.find("unmarshal", guards[:1], 0, `^if _ == (\d+) \[name\]`, "extensionServerName")
+				c.find("unmarshal", guards[len(guards)-1:], 0, `^if _ == (\d+) \[name\]`, "nameTypeHost")
+			} else {
+				x.fail("unmarshal: the store to .%s is not guarded by an extension-type and a name-type test", nameField)
+			}
+		}
+
+		// ---- SNIProxy.ServeTCP: data flow from Peek to Lookup ----
+		if fd := x.funcDecl(dir, "SNIProxy", "ServeTCP"); fd != nil {
+			fl := c.flow(fd)
+			x.defStrList("serveTCPFlow", fl)
+			c.find("ServeTCP", fl, 0, `^hdr=reader\.Peek\((\d+)\)$`, "peekArg")
+			c.find("ServeTCP", fl, 0, `^host=readServerName\(buf\[(\d+):\]\)$`, "recHdrSkip")
 		}
 		return nil
 	})
+}
+
+type c10 struct {
+	x      *X
+	dir    string
+	locals map[string]bool
+}
+
+// constDecl finds the defining expression of a package-level constant (nil if there is none).
+func (c *c10) constDecl(name string) ast.Expr {
+	for _, f := range c.x.files(c.dir) {
+		for _, d := range f.Decls {
+			gd, ok := d.(*ast.GenDecl)
+			if !ok || gd.Tok != token.CONST {
+				continue
+			}
+			for _, s := range gd.Specs {
+				vs := s.(*ast.ValueSpec)
+				for i, n := range vs.Names {
+					if n.Name == name && i < len(vs.Values) {
+						return vs.Values[i]
+					}
+				}
+			}
+		}
+	}
+	return nil
+}
+
+// intConst evaluates an integer constant expression over literals and package-level constants.
+func (c *c10) intConst(e ast.Expr, depth int) (int64, bool) {
+	if depth > 8 {
+		return 0, false
+	}
+	switch v := e.(type) {
+	case *ast.BasicLit:
+		if v.Kind == token.INT {
+			n, err := strconv.ParseInt(v.Value, 0, 64)
+			return n, err == nil
+		}
+	case *ast.ParenExpr:
+		return c.intConst(v.X, depth+1)
+	case *ast.Ident:
+		if c.locals[v.Name] {
+			return 0, false
+		}
+		if d := c.constDecl(v.Name); d != nil {
+			return c.intConst(d, depth+1)
+		}
+	case *ast.BinaryExpr:
+		a, ok1 := c.intConst(v.X, depth+1)
+		b, ok2 := c.intConst(v.Y, depth+1)
+		if ok1 && ok2 {
+			switch v.Op {
+			case token.ADD:
+				return a + b, true
+			case token.SUB:
+				return a - b, true
+			case token.MUL:
+				return a * b, true
+			case token.SHL:
+				if b >= 0 && b < 62 {
+					return a << uint(b), true
+				}
+			}
+		}
+	}
+	return 0, false
+}
+
+func c10isNumber(s string) bool {
+	if s == "" {
+		return false
+	}
+	for _, r := range s {
+		if r < '0' || r > '9' {
+			return false
+		}
+	}
+	return true
+}
+
+func c10paren(e ast.Expr, s string) string {
+	for {
+		p, ok := e.(*ast.ParenExpr)
+		if !ok {
+			break
+		}
+		e = p.X
+	}
+	if _, ok := e.(*ast.BinaryExpr); ok && !c10isNumber(s) {
+		return "(" + s + ")"
+	}
+	return s
+}
+
+// expr prints an expression in the normal form described at the top of this file.
+func (c *c10) expr(e ast.Expr) string {
+	if e == nil {
+		return ""
+	}
+	if n, ok := c.intConst(e, 0); ok {
+		return strconv.FormatInt(n, 10)
+	}
+	switch v := e.(type) {
+	case *ast.Ident:
+		if c.locals[v.Name] {
+			return "_"
+		}
+		return v.Name
+	case *ast.BasicLit:
+		return v.Value
+	case *ast.ParenExpr:
+		return c.expr(v.X)
+	case *ast.CallExpr:
+		var as []string
+		for _, a := range v.Args {
+			as = append(as, c.expr(a))
+		}
+		return c.expr(v.Fun) + "(" + strings.Join(as, ",") + ")"
+	case *ast.IndexExpr:
+		return c.expr(v.X) + "[" + c.expr(v.Index) + "]"
+	case *ast.SliceExpr:
+		return c.expr(v.X) + "[" + c.expr(v.Low) + ":" + c.expr(v.High) + "]"
+	case *ast.SelectorExpr:
+		return c.expr(v.X) + "." + v.Sel.Name
+	case *ast.StarExpr:
+		return "*" + c.expr(v.X)
+	case *ast.UnaryExpr:
+		return v.Op.String() + c10paren(v.X, c.expr(v.X))
+	case *ast.ArrayType:
+		return "[" + c.expr(v.Len) + "]" + c.expr(v.Elt)
+	case *ast.BinaryExpr:
+		return c.binary(v)
+	}
+	return c.x.src(e)
+}
+
+func (c *c10) sum(e ast.Expr, out *[]string) {
+	for {
+		p, ok := e.(*ast.ParenExpr)
+		if !ok {
+			break
+		}
+		e = p.X
+	}
+	if b, ok := e.(*ast.BinaryExpr); ok && b.Op == token.ADD {
+		if _, isConst := c.intConst(b, 0); !isConst {
+			c.sum(b.X, out)
+			c.sum(b.Y, out)
+			return
+		}
+	}
+	*out = append(*out, c10paren(e, c.expr(e)))
+}
+
+func c10sortTerms(ts []string) {
+	sort.SliceStable(ts, func(i, j int) bool {
+		ni, nj := c10isNumber(ts[i]), c10isNumber(ts[j])
+		if ni != nj {
+			return !ni // literals last
+		}
+		return ts[i] < ts[j]
+	})
+}
+
+func c10unparen(e ast.Expr) ast.Expr {
+	for {
+		p, ok := e.(*ast.ParenExpr)
+		if !ok {
+			return e
+		}
+		e = p.X
+	}
+}
+
+func (c *c10) binary(b *ast.BinaryExpr) string {
+	switch b.Op {
+	case token.LOR, token.LAND:
+		side := func(e ast.Expr) string {
+			s := c.expr(e)
+			if in, ok := c10unparen(e).(*ast.BinaryExpr); ok && (in.Op == token.LOR || in.Op == token.LAND) && in.Op != b.Op {
+				return "(" + s + ")"
+			}
+			return s
+		}
+		return side(b.X) + " " + b.Op.String() + " " + side(b.Y)
+	case token.ADD:
+		var ts []string
+		c.sum(b, &ts)
+		c10sortTerms(ts)
+		return strings.Join(ts, "+")
+	case token.LSS, token.LEQ, token.GTR, token.GEQ, token.EQL, token.NEQ:
+		return c.compare(b)
+	}
+	return c10paren(b.X, c.expr(b.X)) + b.Op.String() + c10paren(b.Y, c.expr(b.Y))
+}
+
+// plus renders `e + k` (k an expression) as a sorted sum.
+func (c *c10) plus(e, k ast.Expr) string {
+	var ts []string
+	c.sum(e, &ts)
+	c.sum(k, &ts)
+	c10sortTerms(ts)
+	return strings.Join(ts, "+")
+}
+
+func (c *c10) compare(b *ast.BinaryExpr) string {
+	l, r, op := c10unparen(b.X), c10unparen(b.Y), b.Op
+	if op == token.GTR {
+		l, r, op = r, l, token.LSS
+	} else if op == token.GEQ {
+		l, r, op = r, l, token.LEQ
+	}
+	ls, rs := c.expr(l), c.expr(r)
+	// parity
+	par := func(e ast.Expr) (string, bool) {
+		if m, ok := c10unparen(e).(*ast.BinaryExpr); ok {
+			if k, isK := c.intConst(m.Y, 0); isK && ((m.Op == token.REM && k == 2) || (m.Op == token.AND && k == 1)) {
+				return c10paren(m.X, c.expr(m.X)) + "&1", true
+			}
+		}
+		return "", false
+	}
+	if op == token.EQL || op == token.NEQ {
+		if p, ok := par(l); ok && c10isNumber(rs) {
+			odd := (rs == "1") == (op == token.EQL)
+			if rs == "0" || rs == "1" {
+				if odd {
+					return p + " != 0"
+				}
+				return p + " == 0"
+			}
+		}
+		// string emptiness
+		if rs == `""` {
+			ls, rs = "len("+ls+")", "0"
+		} else if ls == `""` {
+			ls, rs = "len("+rs+")", "0"
+		}
+		if c10isNumber(ls) && !c10isNumber(rs) || (!c10isNumber(ls) && !c10isNumber(rs) && rs < ls) {
+			ls, rs = rs, ls
+		}
+		return ls + " " + op.String() + " " + rs
+	}
+	// op is < or <=. Non-negative quantities against 0 and 1:
+	switch {
+	case op == token.LEQ && rs == "0", op == token.LSS && rs == "1":
+		return ls + " == 0"
+	case op == token.LSS && ls == "0", op == token.LEQ && ls == "1":
+		return rs + " != 0"
+	}
+	// move a subtraction to the other side
+	if m, ok := l.(*ast.BinaryExpr); ok && m.Op == token.SUB {
+		if _, isConst := c.intConst(m, 0); !isConst {
+			return c.expr(m.X) + " " + op.String() + " " + c.plus(r, m.Y)
+		}
+	}
+	if m, ok := r.(*ast.BinaryExpr); ok && m.Op == token.SUB {
+		if _, isConst := c.intConst(m, 0); !isConst {
+			return c.plus(l, m.Y) + " " + op.String() + " " + c.expr(m.X)
+		}
+	}
+	return ls + " " + op.String() + " " + rs
+}
+
+// inlinedCallee returns the unexported same-package function a call goes to (the one WalkInlined follows).
+func (c *c10) inlinedCallee(e ast.Expr) *ast.FuncDecl {
+	call, ok := c10unparen(e).(*ast.CallExpr)
+	if !ok {
+		return nil
+	}
+	name := ""
+	switch f := call.Fun.(type) {
+	case *ast.Ident:
+		name = f.Name
+	case *ast.SelectorExpr:
+		name = f.Sel.Name
+	}
+	if name == "" || ast.IsExported(name) {
+		return nil
+	}
+	return c.x.anyFuncDecl(c.dir, name)
+}
+
+// collectLocals gathers receiver, parameter and local names of fd and of everything WalkInlined follows.
+func (c *c10) collectLocals(fd *ast.FuncDecl) {
+	c.locals = map[string]bool{}
+	add := func(f *ast.FuncDecl) {
+		recv, params, locals := c.x.LocalNames(f)
+		if recv != "" {
+			c.locals[recv] = true
+		}
+		for _, n := range append(params, locals...) {
+			c.locals[n] = true
+		}
+		if f.Type.Results != nil {
+			for _, r := range f.Type.Results.List {
+				for _, n := range r.Names {
+					c.locals[n.Name] = true
+				}
+			}
+		}
+	}
+	add(fd)
+	seen := map[*ast.FuncDecl]bool{fd: true}
+	c.x.WalkInlined(c.dir, fd, func(n ast.Node) bool {
+		if call, ok := n.(*ast.CallExpr); ok {
+			if callee := c.inlinedCallee(call); callee != nil && !seen[callee] {
+				seen[callee] = true
+				add(callee)
+			}
+		}
+		return true
+	})
+}
+
+// storesField reports whether the statements (with helpers inlined) assign to a field of that name.
+func (c *c10) storesField(body *ast.BlockStmt, field string) bool {
+	if field == "" || body == nil {
+		return false
+	}
+	found := false
+	synth := &ast.FuncDecl{Name: ast.NewIdent("\x00body"), Type: &ast.FuncType{}, Body: body}
+	c.x.WalkInlined(c.dir, synth, func(n ast.Node) bool {
+		if as, ok := n.(*ast.AssignStmt); ok {
+			for _, l := range as.Lhs {
+				if se, ok := l.(*ast.SelectorExpr); ok && se.Sel.Name == field {
+					// a store of the zero value (`m.serverName = ""`, the reset) does not count
+					if len(as.Rhs) == 1 && c.expr(as.Rhs[0]) != `""` {
+						found = true
+					}
+				}
+			}
+		}
+		return !found
+	})
+	return found
+}
+
+// outcome summarises how an if-body ends.
+func (c *c10) outcome(body *ast.BlockStmt) string {
+	if body == nil || len(body.List) == 0 {
+		return ""
+	}
+	switch s := body.List[len(body.List)-1].(type) {
+	case *ast.ReturnStmt:
+		var rs []string
+		for _, r := range s.Results {
+			t := c.expr(r)
+			if t == "true" || t == "false" || t == "nil" || c10isNumber(t) || t == `""` {
+				rs = append(rs, t)
+			} else {
+				rs = append(rs, "…")
+			}
+		}
+		return " -> return " + strings.Join(rs, ", ")
+	case *ast.BranchStmt:
+		return " -> " + s.Tok.String()
+	}
+	return ""
+}
+
+// events lists, in execution (source) order with unexported helpers inlined:
+//
+//	if <cond> [name] -> <how the body ends>   every if (`[name]`: the body stores the server-name field);
+//	                                          an `if helper(..)` / `if !helper(..)` around an inlined helper is transparent
+//	for <cond>                                every loop
+//	let <expr>                                every `v := <expr>` that reads bytes (index expressions), not plain re-slicing
+//	advance _[<low>:]                         every `v = v[low:]`
+//	slice _[a:b]                              every slice expression with two constant bounds
+func (c *c10) events(fd *ast.FuncDecl, nameField string) []string {
+	c.collectLocals(fd)
+	var out []string
+	c.x.WalkInlined(c.dir, fd, func(n ast.Node) bool {
+		switch s := n.(type) {
+		case *ast.FuncLit:
+			return false
+		case *ast.IfStmt:
+			cond := c10unparen(s.Cond)
+			if u, ok := cond.(*ast.UnaryExpr); ok && u.Op == token.NOT {
+				cond = c10unparen(u.X)
+			}
+			if c.inlinedCallee(cond) != nil {
+				return true // transparent wrapper around an inlined helper
+			}
+			tag := ""
+			if c.storesField(s.Body, nameField) {
+				tag = " [name]"
+			}
+			out = append(out, "if "+c.expr(s.Cond)+tag+c.outcome(s.Body))
+		case *ast.ForStmt:
+			if s.Cond != nil {
+				out = append(out, "for "+c.expr(s.Cond))
+			} else {
+				out = append(out, "for")
+			}
+		case *ast.AssignStmt:
+			if len(s.Lhs) == 1 && len(s.Rhs) == 1 {
+				lhs, isId := s.Lhs[0].(*ast.Ident)
+				rhs := c10unparen(s.Rhs[0])
+				if se, ok := rhs.(*ast.SliceExpr); ok && isId && s.Tok == token.ASSIGN {
+					if base, ok := se.X.(*ast.Ident); ok && base.Name == lhs.Name && se.High == nil {
+						out = append(out, "advance "+c.expr(se))
+					}
+				} else if s.Tok == token.DEFINE && isId {
+					if _, isSlice := rhs.(*ast.SliceExpr); !isSlice && c.inlinedCallee(rhs) == nil && c10hasIndex(rhs) {
+						out = append(out, "let "+c.expr(rhs))
+					}
+				}
+			}
+		case *ast.SliceExpr:
+			if s.Low != nil && s.High != nil {
+				if _, ok := c.intConst(s.Low, 0); ok {
+					if _, ok := c.intConst(s.High, 0); ok {
+						out = append(out, "slice "+c.expr(s))
+					}
+				}
+			}
+		}
+		return true
+	})
+	return out
+}
+
+func c10hasIndex(e ast.Expr) bool {
+	found := false
+	ast.Inspect(e, func(n ast.Node) bool {
+		if _, ok := n.(*ast.IndexExpr); ok {
+			found = true
+		}
+		return !found
+	})
+	return found
+}
+
+// find applies a regexp to the events from index `from` on; the sub-matches are numbers that become Nat facts.
+// It returns the index of the matching event (or len(list)).
+func (c *c10) find(what string, list []string, from int, re string, names ...string) int {
+	r := regexp.MustCompile(re)
+	for i := from; i < len(list); i++ {
+		if m := r.FindStringSubmatch(list[i]); m != nil {
+			for k, n := range names {
+				v, err := strconv.ParseUint(m[k+1], 10, 64)
+				if err != nil {
+					c.x.fail("%s: %q is not a number", what, m[k+1])
+					return i
+				}
+				c.x.defNat(n, v)
+			}
+			return i
+		}
+	}
+	c.x.fail("%s: no event matches %s", what, re)
+	return len(list)
+}
+
+// flow follows the data from the connection to Lookup in ServeTCP by ROLE: each variable is named after the
+// call it was assigned from, so the list does not mention any identifier of the function.
+func (c *c10) flow(fd *ast.FuncDecl) []string {
+	c.collectLocals(fd)
+	_, params, _ := c.x.LocalNames(fd)
+	role := map[string]string{}
+	for i, p := range params {
+		role[p] = fmt.Sprintf("p%d", i)
+	}
+	arg := func(e ast.Expr) string {
+		e = c10unparen(e)
+		if id, ok := e.(*ast.Ident); ok {
+			if r, ok := role[id.Name]; ok {
+				return r
+			}
+		}
+		if se, ok := e.(*ast.SliceExpr); ok {
+			if id, ok := se.X.(*ast.Ident); ok {
+				if r, ok := role[id.Name]; ok {
+					return r + "[" + c.expr(se.Low) + ":" + c.expr(se.High) + "]"
+				}
+			}
+		}
+		return c.expr(e)
+	}
+	callName := func(call *ast.CallExpr) (string, string) { // (role-qualified name, bare name)
+		switch f := call.Fun.(type) {
+		case *ast.Ident:
+			return f.Name, f.Name
+		case *ast.SelectorExpr:
+			if id, ok := f.X.(*ast.Ident); ok {
+				if r, ok := role[id.Name]; ok {
+					return r + "." + f.Sel.Name, f.Sel.Name
+				}
+				if c.locals[id.Name] {
+					return "_." + f.Sel.Name, f.Sel.Name
+				}
+				return id.Name + "." + f.Sel.Name, f.Sel.Name
+			}
+			return "_." + f.Sel.Name, f.Sel.Name
+		}
+		return "", ""
+	}
+	want := map[string]string{"bufio.NewReader": "reader", "Peek": "hdr", "clientHelloBufferSize": "size", "make": "buf",
+		"io.ReadFull": "", "readServerName": "host", "Lookup": ""}
+	var out []string
+	done := map[*ast.CallExpr]bool{}
+	emit := func(call *ast.CallExpr, lhs ast.Expr) {
+		if done[call] {
+			return
+		}
+		full, bare := callName(call)
+		key := bare
+		if _, ok := want[full]; ok {
+			key = full
+		}
+		newRole, ok := want[key]
+		if !ok {
+			return
+		}
+		if key == "make" && (len(call.Args) < 2 || role[c10identName(call.Args[1])] != "size") {
+			return // some other make(...)
+		}
+		done[call] = true
+		var as []string
+		for _, a := range call.Args {
+			as = append(as, arg(a))
+		}
+		s := full + "(" + strings.Join(as, ",") + ")"
+		if newRole != "" {
+			if id, ok := lhs.(*ast.Ident); ok && id.Name != "_" {
+				role[id.Name] = newRole
+				s = newRole + "=" + s
+			}
+		}
+		out = append(out, s)
+	}
+	c.x.WalkInlined(c.dir, fd, func(n ast.Node) bool {
+		switch s := n.(type) {
+		case *ast.FuncLit:
+			return false
+		case *ast.AssignStmt:
+			if len(s.Rhs) == 1 && len(s.Lhs) >= 1 {
+				if call, ok := c10unparen(s.Rhs[0]).(*ast.CallExpr); ok {
+					emit(call, s.Lhs[0])
+				}
+			}
+		case *ast.CallExpr:
+			emit(s, nil)
+		}
+		return true
+	})
+	return out
+}
+
+func c10identName(e ast.Expr) string {
+	if id, ok := c10unparen(e).(*ast.Ident); ok {
+		return id.Name
+	}
+	return ""
 }
